@@ -754,12 +754,26 @@ func (u *Unit) valueEq(st *State, a, b Value) (*Term, bool) {
 // formula evaluates a clause to a Bool term. asGoal: binders are skolemised; otherwise the clause is
 // registered as a lazily instantiated hypothesis (and True is returned) when it has binders.
 func (env *Env) formula(cl *Clause, asGoal bool) (res *Term) {
+	bsort := func(i int) (*Sort, bool) {
+		switch cl.BTypes[i] {
+		case "uint8":
+			return BVSort(8), false
+		case "uint16":
+			return BVSort(16), false
+		case "uint32":
+			return BVSort(32), false
+		case "uint64":
+			return BVSort(64), false
+		}
+		return SortInt, true
+	}
 	bind := func(e *Env, ks []*Term) {
 		if e.vars == nil {
 			e.vars = map[int]Value{}
 		}
 		for i := range cl.Binders {
-			e.vars[cl.nRes+i] = IntV{ks[i], true}
+			_, sg := bsort(i)
+			e.vars[cl.nRes+i] = IntV{ks[i], sg}
 		}
 	}
 	if len(cl.Binders) == 0 {
@@ -770,15 +784,20 @@ func (env *Env) formula(cl *Clause, asGoal bool) (res *Term) {
 			specFail("exists with more than one binder")
 		}
 		if !asGoal { // hypothesis: skolemise
-			sk := Fresh("ex_"+cl.Binders[0], SortInt)
+			bs, _ := bsort(0)
+			sk := Fresh("ex_"+cl.Binders[0], bs)
 			env.st.addInst(sk)
 			bind(env, []*Term{sk})
 			return env.evalBool(cl)
 		}
 		// goal: the witness must be one of the instantiation terms seen on this path
 		res := False
-		cands := append([]*Term{IntK(0)}, env.st.inst...)
+		bs, _ := bsort(0)
+		cands := append([]*Term{zeroOfSort(bs)}, env.st.inst...)
 		for _, t := range cands {
+			if t.Sort != bs {
+				continue
+			}
 			bind(env, []*Term{t})
 			res = Or(res, env.evalBool(cl))
 		}
@@ -786,8 +805,9 @@ func (env *Env) formula(cl *Clause, asGoal bool) (res *Term) {
 	}
 	if asGoal {
 		var ks []*Term
-		for _, b := range cl.Binders {
-			sk := Fresh("sk_"+b, SortInt)
+		for i, b := range cl.Binders {
+			bs, _ := bsort(i)
+			sk := Fresh("sk_"+b, bs)
 			env.st.addInst(sk)
 			ks = append(ks, sk)
 		}
@@ -807,7 +827,12 @@ func (env *Env) formula(cl *Clause, asGoal bool) (res *Term) {
 		senv.fr = env.fr.clone()
 	}
 	cache := map[string]*Term{}
-	env.st.qh = append(env.st.qh, &QHyp{text: cl.Text, n: len(cl.Binders), inst: func(ks []*Term) *Term {
+	var bsorts []*Sort
+	for i := range cl.Binders {
+		bs, _ := bsort(i)
+		bsorts = append(bsorts, bs)
+	}
+	env.st.qh = append(env.st.qh, &QHyp{text: cl.Text, n: len(cl.Binders), sorts: bsorts, inst: func(ks []*Term) *Term {
 		key := ""
 		for _, k := range ks {
 			key += fmt.Sprintf("%d,", k.id)
@@ -931,7 +956,13 @@ func (u *Unit) recCall(st *State, fn *ssa.Function, args []Value) Value {
 		_, sg, _ := intSort(rt)
 		return IntV{t, sg}
 	}
-	if u.recDepth == 0 && !st.unfolded[t.id] {
+	constBound := false
+	for _, a := range args {
+		if iv, ok := a.(IntV); ok && iv.T.IsInt() && iv.T.C != nil && iv.T.C.IsInt64() && iv.T.C.Int64() <= 2 {
+			constBound = true
+		}
+	}
+	if (u.recDepth == 0 || (constBound && u.recDepth <= 3)) && !st.unfolded[t.id] {
 		if st.unfolded == nil {
 			st.unfolded = map[int]bool{}
 		}
